@@ -317,6 +317,22 @@ def fam_waitn_atomic(rng):
     return lines
 
 
+def fam_waitn_sig(rng):
+    """C13: nsync_wait_n on a condition variable with SHORT deadlines against a stream of signals: the calls end by
+    timeout while a signaller is in the middle of waking the very record (its stack frame is reused by the next
+    call at once).  Meant for the @ps variant (plain reads / writes of the records are scheduling points)."""
+    ncall = rng.choice([5, 7])
+    lines = ["sem %s" % rng.choice(["counting", "binary"]), "objs mu=1 cv=1 var=1", "var x0 0 mu0", "pre ctr_new k0 1"]
+    for _ in range(rng.choice([1, 2])):
+        ops = []
+        for _ in range(ncall):
+            ops += ["lock mu0", "waitn mu0 %s %s" % (rng.choice(["p100", "p300", "p1000"]), rng.choice(["cv0", "cv0 k0", "k0 cv0"])), "unlock mu0"]
+        lines.append("fiber " + " ; ".join(ops))
+    for _ in range(rng.choice([1, 2])):
+        lines.append("fiber " + " ; ".join(["yield ; %s cv0" % rng.choice(["signal", "signal", "broadcast"])] * rng.choice([12, 18])))
+    return lines
+
+
 def fam_waitn_rep(rng):
     """C11 / C13: the same fiber calls nsync_wait_n repeatedly over the same objects (its stack records are
     re-used from call to call) while wakers make the objects ready during, between and after the calls: any
@@ -477,6 +493,21 @@ def fam_late_looker(rng):
     n = rng.choice([36, 45])
     lines.append("fiber lock mu0 ; " + wait_q + " ; " + " ; ".join(["yield"] * rng.randrange(0, 4) + ["unlock mu0"]) + " ; " + " ; ".join(["lock mu0 ; yield ; unlock mu0"] * n))
     lines.append("#strategy6")
+    return lines
+
+
+def fam_starve_mw(rng):
+    """C14: the overtaker holds the mutex except inside nsync_mu_wait_with_deadline calls that end at once (deadline
+    already past, condition false): each call releases the mutex — waking the victim — and takes it back through
+    mu_try_acquire_after_timeout_or_cancel.  That thread has never been woken, so it must honour MU_LONG_WAIT
+    like any fresh locker once the victim has escalated."""
+    kind = rng.choice(["w", "w", "r"])
+    lines = ["sem %s" % rng.choice(["counting", "binary"]), "objs mu=1 cv=0 var=1", "var x0 0 mu0", "cond c0 eq x0 1"]
+    lines.append("fiber yield ; %s mu0 ; %s mu0" % (("lock", "unlock") if kind == "w" else ("rlock", "runlock")))
+    for _ in range(rng.choice([1, 1, 2])):
+        n = rng.choice([60, 80])
+        lines.append("fiber " + " ; ".join(["lock mu0"] + ["muwait mu0 c0 %s ; yield" % rng.choice(["m5", "z", "m5"]) for _ in range(n)] + ["unlock mu0"]))
+    lines.append("#strategy4")
     return lines
 
 
@@ -753,7 +784,7 @@ except Exception:
     _gm = None
 
 FAMILIES = {"alloc_fail": fam_alloc_fail, "note": _gn.fam_note, "note_f4": _gn.fam_note_f4, "note_f4b": _gn.fam_note_f4b, "note_wc": _gn.fam_note_wc, "note_f7": _gn.fam_note_f7, "refcount": fam_refcount, "refcount_mw": fam_refcount_mw, "timed_readers": fam_timed_readers, "alloc_fail_pool": fam_alloc_fail_pool, "starve": fam_starve, "cv_rsignal": fam_cv_rsignal, "ctr": fam_ctr, "once": fam_once, "futex": fam_futex,"core": fam_core, "cv": fam_cv, "cv_raw": fam_cv_raw, "muwait": fam_muwait, "debug": fam_debug,
-            "waitn_cv": fam_waitn_cv, "waitn_rep": fam_waitn_rep, "waitn_atomic": fam_waitn_atomic, "starve_cv": fam_starve_cv, "late_looker": fam_late_looker, "debug_cond": fam_debug_cond, "nw_release": fam_nw_release, "longwait_timeout": fam_longwait_timeout, "starve_mix": fam_starve_mix, "muc_cv": fam_muc_cv, "once_nested": fam_once_nested, "ctr_big": fam_ctr_big, "cancel_children": fam_cancel_children, "cv_rwr": fam_cv_rwr, "muc_eqmix": fam_muc_eqmix, "timed_contended": fam_timed_contended, "waitn_mon": fam_waitn_mon, "cancel_only": fam_cancel_only, "mixed": fam_mixed}
+            "waitn_cv": fam_waitn_cv, "waitn_rep": fam_waitn_rep, "waitn_sig": fam_waitn_sig, "waitn_atomic": fam_waitn_atomic, "starve_cv": fam_starve_cv, "starve_mw": fam_starve_mw, "late_looker": fam_late_looker, "debug_cond": fam_debug_cond, "nw_release": fam_nw_release, "longwait_timeout": fam_longwait_timeout, "starve_mix": fam_starve_mix, "muc_cv": fam_muc_cv, "once_nested": fam_once_nested, "ctr_big": fam_ctr_big, "cancel_children": fam_cancel_children, "cv_rwr": fam_cv_rwr, "muc_eqmix": fam_muc_eqmix, "timed_contended": fam_timed_contended, "waitn_mon": fam_waitn_mon, "cancel_only": fam_cancel_only, "mixed": fam_mixed}
 
 
 if _gw is not None:
